@@ -238,9 +238,12 @@ theorem s2c_main_aux (ts : List Int) (vals : List V) (e0 : Int) (es : List Int) 
       rw [hed] at this
       omega
     obtain ⟨w, W', hWeq⟩ := List.exists_cons_of_ne_nil hWne
-    subst hWeq
-    have hw := hW w (List.mem_cons_self ..)
-    simp only [List.map_cons] at hWnS hWnN hstart ⊢
+    have hw := hW w (by rw [hWeq]; exact List.mem_cons_self ..)
+    have hW'W : ∀ e ∈ W', e ∈ W := fun e he => by rw [hWeq]; exact List.mem_cons_of_mem _ he
+    have hrule' := hrule
+    rw [hWeq] at hWnS hWnN hL hrule' ⊢
+    clear hrule
+    simp only [List.map_cons] at hWnS hWnN hstart hrule' ⊢
     have hW'S : (W'.map (fun e => e.1.toNat)).Pairwise (· ≤ ·) := (List.pairwise_cons.mp hWnS).2
     have hW'N : ∀ d ∈ W'.map (fun e => e.1.toNat), d < N :=
       fun d hd => hWnN d (List.mem_cons_of_mem _ hd)
@@ -266,13 +269,16 @@ theorem s2c_main_aux (ts : List Int) (vals : List V) (e0 : Int) (es : List Int) 
               rw [hL] at he
               simp only [List.nil_append, List.mem_append] at he
               rcases he with he | he
-              · exact (hW e he).1
+              · simp only [List.mem_cons] at he
+                rcases he with rfl | he
+                · exact hw.1
+                · exact (hW e (hW'W e he)).1
               · have := hA' e he; omega
             · obtain ⟨t, ht, hwt⟩ := hmemL w (by rw [hL]; simp)
               exact ⟨t, ht, by rw [← hwt]; omega⟩
         obtain ⟨c, hc, hok⟩ := hclean (f w.2) (W'.map (fun e => f e.2)) w.1.toNat
           (W'.map (fun e => e.1.toNat)) hlen' hW'S hW'N
-        refine ⟨c, _, ?_, hrule _ _ hstart, ?_⟩
+        refine ⟨c, _, ?_, hrule' _ _ hstart, ?_⟩
         · simp only [s2cFinish, hw0, ne_eq, not_true_eq_false, if_false]
           rw [hw0] at hc
           exact hc
@@ -281,14 +287,13 @@ theorem s2c_main_aux (ts : List Int) (vals : List V) (e0 : Int) (es : List Int) 
               ruleS gv N 0 (bestV gv (f w.2)) (f w.2)
                 ((W'.map (fun e => e.1.toNat)).zip (W'.map (fun e => f e.2))) := by
             simp only [List.zip_cons_cons, ruleS, hw0, Nat.le_refl, if_true, bestV, hng, Bool.false_eq_true, if_false]
-          simp only [List.map_cons]
           rw [this]
           exact hok
       · -- initial value inserted at dump 0
         obtain ⟨c, hc, hok⟩ := hclean iv (f w.2 :: W'.map (fun e => f e.2)) 0
           (w.1.toNat :: W'.map (fun e => e.1.toNat)) (by simp only [List.length_cons, List.length_map])
           hWnS hWnN
-        refine ⟨c, _, ?_, hrule _ _ hstart, hok⟩
+        refine ⟨c, _, ?_, hrule' _ _ hstart, hok⟩
         simp only [s2cFinish, ne_eq, hw0, not_false_eq_true, if_true]
         exact hc
     | none =>
@@ -299,7 +304,7 @@ theorem s2c_main_aux (ts : List Int) (vals : List V) (e0 : Int) (es : List Int) 
       rw [hhead] at hstart
       obtain ⟨c, hc, hok⟩ := hclean (f w.2) (W'.map (fun e => f e.2)) w.1.toNat
         (W'.map (fun e => e.1.toNat)) hlen' hW'S hW'N
-      refine ⟨c, _, ?_, hrule _ _ hstart, ?_⟩
+      refine ⟨c, _, ?_, hrule' _ _ hstart, ?_⟩
       · simp only [s2cFinish]
         exact hc
       · -- the first event is extrapolated back to dump 0
@@ -329,7 +334,6 @@ theorem s2c_main_aux (ts : List Int) (vals : List V) (e0 : Int) (es : List Int) 
               simp only [bestV]; split <;> rfl
             rw [h1]
             rw [← List.cons_append, cons_replicate _ _ (w.1.toNat) (by omega)]
-        simp only [List.map_cons]
         rw [this]
         exact hok
 
